@@ -338,6 +338,7 @@ fn check_result(res: &[NetflowPacket], st: &mut JStats) -> Result<usize, Div> {
 
 pub fn run_c16(w: &mut W) {
     let mut st = JStats::default();
+    super::idspace::run_json(w, 0);
     for idx in w.indices() {
         let mut rng = w.begin_case(idx, "json");
         // two parser instances are fed the same history
